@@ -4,10 +4,9 @@
    neighbour; the validity cached from parent selection is never used for the opposite direction, because the chosen parent is
    skipped by the rewiring pass), roots are start states, states never change.  Consequently every consecutive pair of a
    reported path is a validated motion and an exact report ends in a state the goal accepts.
-   NOT proved here (stated in Properties_C01 as the full statement, with this part named _partial): that following parents
-   from the reported motion reaches a root, i.e. that rewiring never closes a cycle.  That needs the cost argument (a
-   neighbour is only rewired when the cost through the new motion is strictly better, while every ancestor of the new
-   motion costs no more than it) for an objective whose motion costs are not negative. *)
+   Needs no hypothesis on the arithmetic of costs.  That following parents from the reported motion reaches a root (rewiring never
+   closes a cycle), that updateChildCosts restores cost = parent's cost + incCost, and what the stored cost means, is RrtStarCost.v /
+   RrtStarCost2.v (they need an order on costs in which adding a motion cost never decreases a cost). *)
 From Coq Require Import List Bool Arith Lia Permutation.
 From OmplV Require Import LedgerProofs RrtStarModel.
 Import ListNotations.
